@@ -30,6 +30,7 @@ package command
 // done channel and the derived cancel; returns only after Wait (logger returned and error stream closed);
 // the deferred cancel runs after Wait.
 //@ func startScanEngine
+//@   sig ctx, engine, conf
 //@   props C16 C08 C12 C13 C14 C01 C03 C07 C15 C09 C10 C20 C11 C19
 //@   observe context.WithCancel, Start, (*sync.WaitGroup).Add, (*sync.WaitGroup).Wait, cancel
 //@   entry row scan: [call context.WithCancel(ctx) as (c2, cf) ; call Add(_, 1) ; go startScanEngine$1{logger: bind_lg, ctx: bind_c1, engine: bind_en} ;
@@ -44,6 +45,7 @@ package command
 // conf.Ports[200k : min(200k+200, len)] (same order, 1..200 ranges) and that is otherwise identical, until all
 // ranges are consumed or an engine fails.
 //@ func startPortScanEngine
+//@   sig ctx, conf
 //@   props C01 C03 C15 C16 C07 C08 C13 C14 C09 C10 C12 C20 C11 C19
 //@   observe startPacketScanEngine
 //@   entry row pairs:  [call startPacketScanEngine(ctx, conf) as (e)] when len(pre(conf.scanRange.Ports)) == 0 && ret == e -> exit
@@ -67,6 +69,7 @@ package command
 // (rateCount, Per(rateWindow)) and nothing else, otherwise straight to the packet source; the engine gets the
 // configured scan method; startScanEngine runs on this configuration's engine config; the source is closed.
 //@ func startPacketScanEngine
+//@   sig ctx, conf
 //@   props C03 C15 C01 C16 C07 C08 C13 C14 C09 C10 C12 C20 C11 C19
 //@   observe bpfFilter, ratelimit.Per, ratelimit.New
 //@   opaque afpacket.NewPacketSource, (*Source).Close, (*Source).SetBPFFilter, packet.NewRateLimitReadWriter, scan.SetupPacketEngine, startScanEngine
@@ -86,6 +89,7 @@ package command
 // application scans: with rateCount > 0 the scanner is wrapped by a limiter built from exactly
 // (rateCount, Per(rateWindow)); the engine gets that scanner, the target generator and the configured worker count
 //@ func (*genericScanCmdOpts).newScanEngine
+//@   sig o, ctx, scanner
 //@   props C15 C08 C01 C02 C09 C10 C13 C12
 //@   observe ratelimit.Per, ratelimit.New
 //@   opaque scan.NewRateLimitScanner, scan.NewResultChan, newIPPortGenerator, scan.WithScanWorkerCount, scan.NewScanEngine
@@ -100,6 +104,7 @@ package command
 // otherwise the network ParseIPNet yields for that text is inserted exactly once (no other filtering); the first
 // error aborts with that error; the container returned is the one that received the inserts.
 //@ func parseExcludeFile
+//@   sig openFile
 //@   props C02 C18 C01 C03 C13 C17 C08
 //@   observe openFile, (*bufio.Scanner).Scan, (*bufio.Scanner).Text, strings.Index, strings.Trim, ParseIPNet, cidranger.NewBasicRangerEntry, Insert, Close, cidranger.NewPCTrieRanger
 //@   entry row noopen: [call openFile() as (in, e)] when e != nil && ret1 == e -> exit
@@ -123,6 +128,7 @@ package command
 //
 // port range "S" or "S-E": at most two parts; each bound is ParseUint(part, 10, 16) of its OWN part
 //@ func parsePortRange
+//@   sig portsRange
 //@   props C18 C01 C02 C03 C13 C17 C08
 //@   observe strings.Split, strconv.ParseUint
 //@   entry row toomany: [call strings.Split(portsRange, "-") as (ps)] when len(ps) > 2 && ret0 == nil && ret1 == scan.ErrPortRange -> exit
@@ -136,6 +142,7 @@ package command
 
 // comma separated list: one parsePortRange per part, results kept in order, first error aborts
 //@ func parsePortRanges
+//@   sig portsRanges
 //@   props C18 C01 C02 C03 C13 C17 C08
 //@   observe strings.Split, parsePortRange
 //@   entry row split: [call strings.Split(portsRanges, ",") as (parts)] -> loop 0
@@ -150,6 +157,7 @@ package command
 // window that does not start with a digit, '.', '+' or '-' (a bare unit such as "s") gets the shorthand count 1 prefixed;
 // no window means one second
 //@ func parseRateLimit
+//@   sig rateLimit
 //@   props C18 C15
 //@   observe strings.Split, strconv.ParseInt, strings.ContainsRune, time.ParseDuration
 //@   entry row toomany: [call strings.Split(rateLimit, "/") as (ps)] when len(ps) > 2 && ret2 == errRateLimit && ret0 == 0 && ret1 == 0 -> exit
@@ -163,6 +171,7 @@ package command
 
 // payload: the Go-unquoted form of the text
 //@ func parsePacketPayload
+//@   sig payload
 //@   props C18 C05
 //@   observe strconv.Unquote
 //@   entry row bad: [call strconv.Unquote(bind_q) as (u, e)] when q == "\"" + payload + "\"" && e != nil && ret1 == e -> exit
@@ -171,6 +180,7 @@ package command
 // IP flags: comma separated, case-insensitive; each name ORs in exactly its own bit (df = 2, evil = 4, mf = 1) and
 // keeps every bit set before; an unknown name is an error; the empty text is 0
 //@ func parseIPFlags
+//@   sig inputFlags
 //@   props C18 C05
 //@   observe strings.ToLower, strings.Split
 //@   entry row empty: [] when len(inputFlags) == 0 && ret0 == 0 && ret1 == nil -> exit
@@ -184,6 +194,7 @@ package command
 // TCP flag names: comma separated, case-insensitive; a name is accepted iff it is a key of the option table; the
 // accepted (lower-cased) names are returned in order
 //@ func parseTCPFlags
+//@   sig tcpFlags
 //@   props C18 C05
 //@   observe strings.Split, strings.ToLower
 //@   entry row empty: [] when len(tcpFlags) == 0 && len(ret0) == 0 && ret1 == nil -> exit
@@ -200,6 +211,7 @@ package command
 // interface address, and must have a 4-byte form (else errSrcIP: never an empty source); the source MAC is --srcmac
 // if given, else exactly the interface's hardware address (nil stays nil: that is what selects VPN framing)
 //@ func (*packetScanCmdOpts).getScanRange
+//@   sig o, dstSubnet
 //@   props C17 C05 C02 C11
 //@   observe getInterface, To4
 //@   entry row ifaceerr: [call getInterface(o, dstSubnet) as (ifc, sip, e)] when e != nil && ret0 == nil && ret1 == e -> exit
@@ -214,6 +226,7 @@ package command
 // getInterface: directly attached interface (with its address on that subnet) first; else --iface with its first
 // address - unconditionally, also when that lookup fails; else the default-route interface
 //@ func (*packetScanCmdOpts).getInterface
+//@   sig o, dstSubnet
 //@   props C17 C05 C02 C11
 //@   observe getLocalSubnetInterface, ip.GetInterfaceIP
 //@   opaque ip.GetDefaultInterface
@@ -228,6 +241,7 @@ package command
 
 // with --iface the attached-subnet lookup is restricted to that interface (and still returns that interface)
 //@ func (*packetScanCmdOpts).getLocalSubnetInterface
+//@   sig o, dstSubnet
 //@   props C17 C05 C02 C11
 //@   observe ip.GetLocalSubnetInterface, ip.GetLocalSubnetInterfaceIP
 //@   entry row any:   [call ip.GetLocalSubnetInterface(dstSubnet) as (i, a, e)] when o.iface == nil && ret0 == i && ret1 == a && ret2 == e -> exit
@@ -241,6 +255,7 @@ package command
 // arp: exactly one argument, parsed by ParseIPNet (C02); range from getScanRange of THAT subnet (C17); no source MAC =>
 // errSrcMAC, nothing is started; filter = arp.BPFFilter; rate and exit delay from the flags; logger and range as built
 //@ func newARPCmd$1
+//@   sig cmd, args
 //@   props C03 C15 C16 C17 C02 C01 C19 C05 C11 C13 C14 C07 C12
 //@   observe ip.ParseIPNet, getScanRange, startPacketScanEngine
 //@   opaque (*packetScanCmdOpts).parseRawOptions, (*arpCmdOpts).getLogger, (*arpCmdOpts).newARPScanMethod
@@ -263,6 +278,7 @@ package command
 // newICMPCmd$1: options parsed first; scan name "icmp"; method from newICMPScanMethod; filter = icmp.BPFFilter (replies to both scans are ICMP);
 // rate, VPN mode, logger, range and exit delay exactly as parsed
 //@ func newICMPCmd$1
+//@   sig cmd, args
 //@   props C03 C15 C16 C17 C01 C02 C05 C11 C13 C14 C07 C12
 //@   observe startPacketScanEngine
 //@   opaque (*icmpCmdOpts).parseRawOptions, (*ipScanCmdOpts).parseOptions, (*icmpCmdOpts).newICMPScanMethod
@@ -278,6 +294,7 @@ package command
 // newUDPCmd$1: options parsed first; scan name "udp"; method from newUDPScanMethod; filter = icmp.BPFFilter (replies to both scans are ICMP);
 // rate, VPN mode, logger, range and exit delay exactly as parsed
 //@ func newUDPCmd$1
+//@   sig cmd, args
 //@   props C03 C15 C16 C17 C01 C02 C05 C11 C13 C14 C07 C12
 //@   observe startPortScanEngine
 //@   opaque (*udpCmdOpts).parseRawOptions, (*ipPortScanCmdOpts).parseOptions, (*udpCmdOpts).newUDPScanMethod
@@ -294,26 +311,32 @@ package command
 // its flag printer, and startPortScanEngine its capture filter (syn: SYN probe, SYN+ACK predicate and filter, no flag
 // letters; fin / null / xmas: FIN / no flag / FIN+PSH+URG probes, every TCP reply, all flag letters)
 //@ func withTCPScanName$1
+//@   sig c
 //@   props C03 C05
 //@   modifies c.scanName
 //@   ensures c.scanName == scanName
 //@ func withTCPPacketFillerOptions$1
+//@   sig c
 //@   props C03 C05
 //@   modifies c.packetFillerOpts
 //@   ensures c.packetFillerOpts == opts
 //@ func withTCPPacketFilterFunc$1
+//@   sig c
 //@   props C03 C05
 //@   modifies c.packetFilter
 //@   ensures c.packetFilter == filter
 //@ func withTCPPacketFlags$1
+//@   sig c
 //@   props C03 C05
 //@   modifies c.packetFlags
 //@   ensures c.packetFlags == packetFlags
 // the SYN scan's reply predicate: SYN and ACK both set
 //@ func (*tcpSYNCmdOpts).startScan$1
+//@   sig pkt
 //@   props C03
 //@   ensures ret <==> (pkt.SYN && pkt.ACK)
 //@ func newTCPFINCmd$1
+//@   sig cmd, args
 //@   props C03 C05 C15 C16 C17 C01 C02 C11 C13 C14 C07 C12
 //@   observe newTCPScanMethod, startPortScanEngine
 //@   opaque (*ipPortScanCmdOpts).parseRawOptions, (*ipPortScanCmdOpts).parseOptions
@@ -333,6 +356,7 @@ package command
 //@                           && cfg.scanRange.DstSubnet == c.opts.scanRange.DstSubnet && cfg.scanRange.Interface == c.opts.scanRange.Interface && cfg.scanRange.SrcIP == c.opts.scanRange.SrcIP
 //@                           && cfg.scanRange.SrcMAC == c.opts.scanRange.SrcMAC && cfg.scanRange.Ports == c.opts.scanRange.Ports) -> exit
 //@ func newTCPNULLCmd$1
+//@   sig cmd, args
 //@   props C03 C05 C15 C16 C17 C01 C02 C11 C13 C14 C07 C12
 //@   observe newTCPScanMethod, startPortScanEngine
 //@   opaque (*ipPortScanCmdOpts).parseRawOptions, (*ipPortScanCmdOpts).parseOptions
@@ -351,6 +375,7 @@ package command
 //@                           && cfg.scanRange.DstSubnet == c.opts.scanRange.DstSubnet && cfg.scanRange.Interface == c.opts.scanRange.Interface && cfg.scanRange.SrcIP == c.opts.scanRange.SrcIP
 //@                           && cfg.scanRange.SrcMAC == c.opts.scanRange.SrcMAC && cfg.scanRange.Ports == c.opts.scanRange.Ports) -> exit
 //@ func newTCPXmasCmd$1
+//@   sig cmd, args
 //@   props C03 C05 C15 C16 C17 C01 C02 C11 C13 C14 C07 C12
 //@   observe newTCPScanMethod, startPortScanEngine
 //@   opaque (*ipPortScanCmdOpts).parseRawOptions, (*ipPortScanCmdOpts).parseOptions
@@ -372,6 +397,7 @@ package command
 //@                           && cfg.scanRange.DstSubnet == c.opts.scanRange.DstSubnet && cfg.scanRange.Interface == c.opts.scanRange.Interface && cfg.scanRange.SrcIP == c.opts.scanRange.SrcIP
 //@                           && cfg.scanRange.SrcMAC == c.opts.scanRange.SrcMAC && cfg.scanRange.Ports == c.opts.scanRange.Ports) -> exit
 //@ func (*tcpSYNCmdOpts).startScan
+//@   sig o, ctx, args
 //@   props C03 C05 C15 C16 C17 C01 C02 C11 C13 C14 C07 C12
 //@   observe newTCPScanMethod, startPortScanEngine
 //@   opaque (*ipPortScanCmdOpts).parseOptions
@@ -390,6 +416,7 @@ package command
 //@                           && cfg.scanRange.DstSubnet == o.scanRange.DstSubnet && cfg.scanRange.Interface == o.scanRange.Interface && cfg.scanRange.SrcIP == o.scanRange.SrcIP
 //@                           && cfg.scanRange.SrcMAC == o.scanRange.SrcMAC && cfg.scanRange.Ports == o.scanRange.Ports) -> exit
 //@ func newTCPSYNCmd$1
+//@   sig cmd, args
 //@   props C03 C16 C01 C02 C05 C11 C13 C14 C15 C17 C07 C12
 //@   observe startScan
 //@   opaque (*ipPortScanCmdOpts).parseRawOptions
@@ -401,11 +428,12 @@ package command
 // options followed by the VPN option; the scan method gets the configured name, reply predicate and flag printer and
 // the VPN mode (C03 C05 C11 C17)
 //@ func (*tcpCmdOpts).newTCPScanMethod
+//@   sig o, ctx, opts
 //@   props C03 C05 C11 C17 C01 C02 C13 C14 C15 C16 C07 C12
-//@   observe opt
+//@   observe tcpScanConfigOption
 //@   opaque (*ipPortScanCmdOpts).newIPPortGenerator, arp.NewCacheRequestGenerator, tcp.WithFillerVPNmode, tcp.NewPacketFiller, scan.NewPacketMultiGenerator, scan.NewPacketSource, scan.NewResultChan, tcp.WithPacketFilterFunc, tcp.WithPacketFlagsFunc, tcp.WithScanVPNmode, tcp.NewScanMethod
 //@   entry row init:  [] -> loop 0
-//@   loop 0 row apply: [call opt(c)] -> continue
+//@   loop 0 row apply: [call tcpScanConfigOption(c)] -> continue
 //@   loop 0 row direct: [call newIPPortGenerator(_) as (g) ; call tcp.WithFillerVPNmode(o.vpnMode) as (vo) ; call tcp.NewPacketFiller(bind_fo) as (pf) ; call scan.NewPacketMultiGenerator(bind_pf2, _) as (pg) ;
 //@                       call scan.NewPacketSource(g, bind_pg2) as (ps) ; call scan.NewResultChan(ctx, _) as (rc) ; call tcp.WithPacketFilterFunc(c.packetFilter) as (o1) ;
 //@                       call tcp.WithPacketFlagsFunc(c.packetFlags) as (o2) ; call tcp.WithScanVPNmode(o.vpnMode) as (o3) ; call tcp.NewScanMethod(c.scanName, bind_ps2, rc, bind_mo) as (m)]
@@ -424,18 +452,21 @@ package command
 // engine construction of the application scans: the scanner gets the configured timeouts / protocol, the engine is
 // built by newScanEngine around exactly that scanner
 //@ func (*socksCmdOpts).newSOCKSScanEngine
+//@   sig o, ctx
 //@   props C09 C08 C01 C15 C02 C13 C14 C16 C12
 //@   observe newScanEngine
 //@   opaque socks5.NewScanner, socks5.WithDialTimeout, socks5.WithDataTimeout
 //@   entry row build: [call socks5.WithDialTimeout(o.timeout) as (o1) ; call socks5.WithDataTimeout(o.timeout) as (o2) ; call socks5.NewScanner(bind_os) as (sc) ; call newScanEngine(_, ctx, bind_s2) as (en)]
 //@                       when len(os) == 2 && os[0] == o1 && os[1] == o2 && isptr(s2, socks5.Scanner) && asptr(s2, socks5.Scanner) == sc && isptr(ret, scan.GenericEngine) && asptr(ret, scan.GenericEngine) == en -> exit
 //@ func (*dockerCmdOpts).newDockerScanEngine
+//@   sig o, ctx
 //@   props C10 C08 C01 C15 C02 C13 C14 C16 C12
 //@   observe newScanEngine
 //@   opaque docker.NewScanner, docker.WithDataTimeout
 //@   entry row build: [call docker.WithDataTimeout(o.timeout) as (o1) ; call docker.NewScanner(o.proto, bind_os) as (sc) ; call newScanEngine(_, ctx, bind_s2) as (en)]
 //@                       when len(os) == 1 && os[0] == o1 && isptr(s2, docker.Scanner) && asptr(s2, docker.Scanner) == sc && isptr(ret, scan.GenericEngine) && asptr(ret, scan.GenericEngine) == en -> exit
 //@ func (*elasticCmdOpts).newElasticScanEngine
+//@   sig o, ctx
 //@   props C10 C08 C01 C15 C02 C13 C14 C16 C12
 //@   observe newScanEngine
 //@   opaque elastic.NewScanner, elastic.WithDataTimeout
@@ -444,45 +475,54 @@ package command
 
 // engine configuration: default exit delay 300 ms, then the options in order; each option sets exactly its field
 //@ func withExitDelay$1
+//@   sig c
 //@   props C16 C01 C03 C07 C08 C13 C14 C15 C09 C10 C12 C20 C11 C19
 //@   modifies c.exitDelay
 //@   ensures c.exitDelay == exitDelay
 //@ func withLogger$1
+//@   sig c
 //@   props C16 C14 C01 C03 C07 C08 C13 C15 C09 C10 C12 C20 C11 C19
 //@   modifies c.logger
 //@   ensures c.logger == logger
 //@ func withRateCount$1
+//@   sig c
 //@   props C15
 //@   modifies c.rateCount
 //@   ensures c.rateCount == rateCount
 //@ func withRateWindow$1
+//@   sig c
 //@   props C15
 //@   modifies c.rateWindow
 //@   ensures c.rateWindow == rateWindow
 //@ func withPacketVPNmode$1
+//@   sig c
 //@   props C17 C05
 //@   modifies c.vpnMode
 //@   ensures c.vpnMode == vpnMode
 //@ func withPacketBPFFilter$1
+//@   sig c
 //@   props C03
 //@   modifies c.bpfFilter
 //@   ensures c.bpfFilter == bpfFilter
 //@ func withPacketScanMethod$1
+//@   sig c
 //@   props C03
 //@   modifies c.scanMethod
 //@   ensures c.scanMethod == sm
 //@ func newEngineConfig
+//@   sig opts
 //@   props C16 C01 C03 C07 C08 C13 C14 C15 C09 C10 C12 C20 C11 C19
 //@   inline
-//@   observe o
+//@   observe engineConfigOption
 //@   entry row init:  [] when c.exitDelay == 300000000 -> loop 0
-//@   loop 0 row apply: [call o(c)] -> continue
+//@   loop 0 row apply: [call engineConfigOption(c)] -> continue
 //@   loop 0 row done:  [] when ret == c -> exit
 
 // ARP scan method: generator stack = addresses of the subnet, then the exclusion filter iff exclusions were given,
 // then - outermost - the live re-scanner with the configured interval iff --live > 0 (C19, C02); the logger
 // de-duplicates iff live mode is on (C14)
 //@ func (*arpCmdOpts).newARPScanMethod
+//@   sig o, ctx
 //@   props C19 C02 C01 C03 C05 C11 C13 C14 C15 C16 C17 C07 C12
 //@   opaque scan.NewIPGenerator, scan.NewIPRequestGenerator, scan.NewFilterIPRequestGenerator, scan.NewLiveRequestGenerator, arp.NewPacketFiller, scan.NewPacketMultiGenerator, scan.NewPacketSource, scan.NewResultChan, arp.NewScanMethod
 //@   entry row plain:    [call scan.NewIPGenerator() as (ig) ; call scan.NewIPRequestGenerator(ig) as (g) ; call arp.NewPacketFiller() as (pf) ; call scan.NewPacketMultiGenerator(_, _) as (pg) ; call scan.NewPacketSource(g, _) as (ps) ;
@@ -497,6 +537,7 @@ package command
 //@                        call arp.NewPacketFiller() as (pf) ; call scan.NewPacketMultiGenerator(_, _) as (pg) ; call scan.NewPacketSource(g3, _) as (ps) ; call scan.NewResultChan(ctx, _) as (rc) ; call arp.NewScanMethod(ps, rc) as (m)]
 //@                          when o.excludeIPs != nil && o.liveTimeout > 0 && ret == m -> exit
 //@ func (*arpCmdOpts).getLogger
+//@   sig o
 //@   props C14 C19
 //@   opaque (*packetScanCmdOpts).getLogger, log.NewUniqueLogger
 //@   entry row fail:   [call getLogger(_, "arp", _) as (lg, e)] when e != nil && ret1 == e -> exit
@@ -506,6 +547,7 @@ package command
 // target generator choice (C01): no address file -> subnet x ports; address file without port ranges -> file of
 // ip/port pairs; otherwise file of addresses x ports; the exclusion filter is outermost iff exclusions were given
 //@ func (*ipPortScanCmdOpts).newIPPortGenerator
+//@   sig o
 //@   props C01 C02 C13 C03 C18 C17 C08
 //@   opaque scan.NewIPGenerator, scan.NewPortGenerator, scan.NewIPPortGenerator, scan.NewFileIPPortGenerator, scan.NewFileIPGenerator, scan.NewFilterIPRequestGenerator
 //@   entry row subnet:  [call scan.NewIPGenerator() as (ig) ; call scan.NewPortGenerator() as (pg) ; call scan.NewIPPortGenerator(ig, pg) as (g)] when len(o.ipFile) == 0 && o.excludeIPs == nil && ret == g -> exit
@@ -518,6 +560,7 @@ package command
 // newSocksCmd$1: options, range and logger first; the engine built by newSOCKSScanEngine; startScanEngine gets that engine and a
 // configuration carrying this logger, this range and the --exit-delay flag
 //@ func newSocksCmd$1
+//@   sig cmd, args
 //@   props C16 C08 C09 C01 C15 C02 C13 C14 C12
 //@   observe startScanEngine
 //@   opaque (*genericScanCmdOpts).parseRawOptions, (*genericScanCmdOpts).parseScanRange, (*genericScanCmdOpts).getLogger, (*socksCmdOpts).newSOCKSScanEngine
@@ -531,6 +574,7 @@ package command
 // newDockerCmd$1: options, range and logger first; the engine built by newDockerScanEngine; startScanEngine gets that engine and a
 // configuration carrying this logger, this range and the --exit-delay flag
 //@ func newDockerCmd$1
+//@   sig cmd, args
 //@   props C16 C08 C10 C01 C15 C02 C13 C14 C12
 //@   observe startScanEngine
 //@   opaque (*dockerCmdOpts).parseRawOptions, (*genericScanCmdOpts).parseScanRange, (*genericScanCmdOpts).getLogger, (*dockerCmdOpts).newDockerScanEngine
@@ -544,6 +588,7 @@ package command
 // newElasticCmd$1: options, range and logger first; the engine built by newElasticScanEngine; startScanEngine gets that engine and a
 // configuration carrying this logger, this range and the --exit-delay flag
 //@ func newElasticCmd$1
+//@   sig cmd, args
 //@   props C16 C08 C10 C01 C15 C02 C13 C14 C12
 //@   observe startScanEngine
 //@   opaque (*elasticCmdOpts).parseRawOptions, (*genericScanCmdOpts).parseScanRange, (*genericScanCmdOpts).getLogger, (*elasticCmdOpts).newElasticScanEngine
@@ -558,6 +603,7 @@ package command
 // exists, filler built from the command's options, method in the command's VPN mode; the filler options carry exactly
 // the parsed flag values, the payload option only for a non-empty payload (C05 C11 C17 C01)
 //@ func (*icmpCmdOpts).getICMPOptions
+//@   sig o
 //@   props C05 C18
 //@   opaque icmp.WithTTL, icmp.WithIPProtocol, icmp.WithIPFlags, icmp.WithIPTotalLength, icmp.WithType, icmp.WithCode, icmp.WithVPNmode, icmp.WithPayload
 //@   entry row nopayload: [call icmp.WithTTL(o.ipTTL) as (a) ; call icmp.WithIPProtocol(o.ipProtocol) as (b) ; call icmp.WithIPFlags(o.ipFlags) as (c) ; call icmp.WithIPTotalLength(o.ipTotalLen) as (d) ;
@@ -567,6 +613,7 @@ package command
 //@                         call icmp.WithType(o.icmpType) as (t) ; call icmp.WithCode(o.icmpCode) as (k) ; call icmp.WithVPNmode(o.vpnMode) as (v) ; call icmp.WithPayload(o.icmpPayload) as (p)]
 //@                          when len(o.icmpPayload) > 0 && len(ret) == 8 && ret[0] == a && ret[1] == b && ret[2] == c && ret[3] == d && ret[4] == t && ret[5] == k && ret[6] == v && ret[7] == p -> exit
 //@ func (*udpCmdOpts).getUDPOptions
+//@   sig o
 //@   props C05 C18
 //@   opaque udp.WithTTL, udp.WithIPProtocol, udp.WithIPFlags, udp.WithIPTotalLength, udp.WithVPNmode, udp.WithPayload
 //@   entry row nopayload: [call udp.WithTTL(o.ipTTL) as (a) ; call udp.WithIPProtocol(o.ipProtocol) as (b) ; call udp.WithIPFlags(o.ipFlags) as (c) ; call udp.WithIPTotalLength(o.ipTotalLen) as (d) ; call udp.WithVPNmode(o.vpnMode) as (v)]
@@ -575,6 +622,7 @@ package command
 //@                         call udp.WithPayload(o.udpPayload) as (p)]
 //@                          when len(o.udpPayload) > 0 && len(ret) == 6 && ret[0] == a && ret[1] == b && ret[2] == c && ret[3] == d && ret[4] == v && ret[5] == p -> exit
 //@ func (*udpCmdOpts).newUDPScanMethod
+//@   sig o, ctx
 //@   props C05 C11 C17 C01 C03 C02 C13 C14 C15 C16 C07 C12
 //@   observe getUDPOptions
 //@   opaque (*ipPortScanCmdOpts).newIPPortGenerator, arp.NewCacheRequestGenerator, udp.NewPacketFiller, scan.NewPacketMultiGenerator, scan.NewPacketSource, scan.NewResultChan, udp.NewScanMethod
@@ -586,6 +634,7 @@ package command
 //@                       when pg2 == pg && o.cache != nil && isptr(pf2, udp.PacketFiller) && asptr(pf2, udp.PacketFiller) == pf && ret == m -> exit
 
 //@ func (*icmpCmdOpts).newICMPScanMethod
+//@   sig o, ctx
 //@   props C05 C11 C17 C01 C02 C13 C03 C14 C15 C16 C07 C12
 //@   observe getICMPOptions
 //@   opaque scan.NewIPGenerator, scan.NewFileIPGenerator, scan.NewIPRequestGenerator, scan.NewFilterIPRequestGenerator, arp.NewCacheRequestGenerator, icmp.NewPacketFiller, scan.NewPacketMultiGenerator, scan.NewPacketSource, scan.NewResultChan, icmp.NewScanMethod
@@ -608,6 +657,7 @@ package command
 
 // VPN framing is selected exactly when the chosen range has no source MAC (C17)
 //@ func (*ipScanCmdOpts).parseOptions
+//@   sig o, scanName, args
 //@   props C17 C01 C02 C03 C05 C11 C13 C14 C15 C16 C07 C12
 //@   observe getScanRange
 //@   opaque (*ipScanCmdOpts).parseDstSubnet, (*packetScanCmdOpts).getLogger, (*ipScanCmdOpts).validateARPStdin, (*ipScanCmdOpts).parseARPCache, (*ipScanCmdOpts).getGatewayMAC
@@ -628,6 +678,7 @@ package command
 // Raw option parsing (C15 C18 C02 C08): whenever a raw option text was given and parsing succeeds, it was parsed -
 // exactly once, from THAT text - and the parsed values are the ones stored. (Loop-free functions: "exit require".)
 //@ func (*genericScanCmdOpts).parseRawOptions
+//@   sig o
 //@   props C15 C18 C02 C08 C01 C03 C13 C17
 //@   opaque parsePortRanges, parsePortsFile, parseExcludeFile
 //@   exit require rate:    call parseRateLimit(bind_s) as (c, w, e) when len(pre(o.rawRateLimit)) > 0 && ret == nil then s == pre(o.rawRateLimit) && e == nil && o.rateCount == c && o.rateWindow == w
@@ -641,6 +692,7 @@ package command
 //@   exit forbid nofile:    call parsePortsFile(_) when len(pre(o.portFile)) == 0
 //@   ensures plain: (len(old(o.rawRateLimit)) == 0 && len(old(o.rawExcludeFile)) == 0 && len(old(o.rawPortRanges)) == 0 && len(old(o.portFile)) == 0 && old(o.workers) > 0) ==> ret == nil
 //@ func (*packetScanCmdOpts).parseRawOptions
+//@   sig o
 //@   props C15 C18 C02 C17 C01 C03 C13 C08
 //@   opaque parseExcludeFile
 //@   observe net.InterfaceByName, net.ParseMAC
@@ -654,6 +706,7 @@ package command
 //@   exit forbid nosrcmac:  call net.ParseMAC(_) when len(pre(o.rawSrcMAC)) == 0
 //@   ensures plain: (len(old(o.rawRateLimit)) == 0 && len(old(o.rawExcludeFile)) == 0 && len(old(o.rawInterface)) == 0 && len(old(o.rawSrcMAC)) == 0) ==> ret == nil
 //@ func (*ipPortScanCmdOpts).parseRawOptions
+//@   sig o
 //@   props C18 C01 C02 C03 C13 C17 C08
 //@   opaque (*ipScanCmdOpts).parseRawOptions, parsePortRanges, parsePortsFile
 //@   exit require base:  call parseRawOptions(_) as (e) when ret == nil then e == nil
@@ -667,6 +720,7 @@ package command
 //@   exit forbid noports:   call parsePortRanges(_) when len(pre(o.rawPortRanges)) == 0
 //@   exit forbid nofile:    call parsePortsFile(_) when len(pre(o.portFile)) == 0
 //@ func (*genericScanCmdOpts).newIPPortGenerator
+//@   sig o
 //@   props C01 C02 C13 C08 C03 C18 C17
 //@   opaque scan.NewIPGenerator, scan.NewPortGenerator, scan.NewIPPortGenerator, scan.NewFileIPPortGenerator, scan.NewFileIPGenerator, scan.NewFilterIPRequestGenerator
 //@   entry row subnet:  [call scan.NewIPGenerator() as (ig) ; call scan.NewPortGenerator() as (pg) ; call scan.NewIPPortGenerator(ig, pg) as (g)] when len(o.ipFile) == 0 && o.excludeIPs == nil && ret == g -> exit
@@ -702,11 +756,13 @@ package command
 
 // loggers: flush option first; the JSON option iff --json; writer and name are the arguments
 //@ func (*packetScanCmdOpts).getLogger
+//@   sig o, name, w
 //@   props C14
 //@   opaque log.FlushInterval, log.JSON, log.NewLogger
 //@   entry row plain: [call log.FlushInterval(_) as (fo) ; call log.NewLogger(w, name, bind_os) as (l, e)] when !o.json && len(os) == 1 && os[0] == fo && ret0 == l && ret1 == e -> exit
 //@   entry row json:  [call log.FlushInterval(_) as (fo) ; call log.JSON() as (jo) ; call log.NewLogger(w, name, bind_os) as (l, e)] when o.json && len(os) == 2 && os[0] == fo && os[1] == jo && ret0 == l && ret1 == e -> exit
 //@ func (*genericScanCmdOpts).getLogger
+//@   sig o, name, w
 //@   props C14 C08
 //@   opaque log.FlushInterval, log.JSON, log.NewLogger
 //@   entry row plain: [call log.FlushInterval(_) as (fo) ; call log.NewLogger(w, name, bind_os) as (l, e)] when !o.json && len(os) == 1 && os[0] == fo && ret0 == l && ret1 == e -> exit
@@ -714,18 +770,21 @@ package command
 
 // target of the application scans: the parsed subnet argument (nil with an address file and no argument) with the parsed port ranges
 //@ func (*genericScanCmdOpts).parseDstSubnet
+//@   sig o, args
 //@   props C02 C01 C03 C13 C18 C17 C08
 //@   observe ip.ParseIPNet
 //@   entry row none:  [] when len(args) == 0 && len(o.ipFile) == 0 && ret0 == nil && ret1 == errNoDstIP -> exit
 //@   entry row file:  [] when len(args) == 0 && len(o.ipFile) != 0 && ret0 == nil && ret1 == nil -> exit
 //@   entry row parse: [call ip.ParseIPNet(pre(args[0])) as (n, e)] when len(args) != 0 && ret0 == n && ret1 == e -> exit
 //@ func (*ipScanCmdOpts).parseDstSubnet
+//@   sig o, args
 //@   props C02 C01 C03 C13 C18 C17 C08
 //@   observe ip.ParseIPNet
 //@   entry row none:  [] when len(args) == 0 && len(o.ipFile) == 0 && ret0 == nil && ret1 == errNoDstIP -> exit
 //@   entry row file:  [] when len(args) == 0 && len(o.ipFile) != 0 && ret0 == nil && ret1 == nil -> exit
 //@   entry row parse: [call ip.ParseIPNet(pre(args[0])) as (n, e)] when len(args) != 0 && ret0 == n && ret1 == e -> exit
 //@ func (*genericScanCmdOpts).parseScanRange
+//@   sig o, args
 //@   props C02 C01 C03 C13 C18 C17 C08
 //@   opaque (*genericScanCmdOpts).parseDstSubnet
 //@   entry row range: [call parseDstSubnet(_, args) as (n, e)] when ret1 == e && ret0 != nil && ret0.DstSubnet == n && ret0.Ports == o.portRanges -> exit
@@ -733,6 +792,7 @@ package command
 // ports file: like the exclusion file - per line the text before '#', trimmed; blank lines skipped; every other
 // line parsed by parsePortRange and appended in order; the first error aborts with nothing
 //@ func parsePortsFile
+//@   sig openFile
 //@   props C18 C01 C02 C03 C13 C17 C08
 //@   observe openFile, (*bufio.Scanner).Scan, (*bufio.Scanner).Text, strings.Index, strings.Trim, parsePortRange, Close
 //@   entry row noopen: [call openFile() as (in, e)] when e != nil && ret1 == e -> exit
@@ -750,6 +810,7 @@ package command
 // per-command raw options: the embedded parser must have succeeded; IP flags and payloads, when given, are parsed
 // once from the given text and stored
 //@ func (*ipScanCmdOpts).parseRawOptions
+//@   sig o
 //@   props C11 C18 C01 C02 C03 C13 C17 C08
 //@   opaque (*packetScanCmdOpts).parseRawOptions
 //@   observe net.ParseMAC
@@ -757,6 +818,7 @@ package command
 //@   exit require gwmac: call net.ParseMAC(bind_s) as (m, e) when len(pre(o.rawGatewayMAC)) > 0 && ret == nil then s == pre(o.rawGatewayMAC) && e == nil && o.gatewayMAC == m
 //@   exit forbid nogwmac: call net.ParseMAC(_) when len(pre(o.rawGatewayMAC)) == 0
 //@ func (*icmpCmdOpts).parseRawOptions
+//@   sig o
 //@   props C05 C18 C01 C02 C03 C13 C17 C08
 //@   opaque (*ipScanCmdOpts).parseRawOptions, parseIPFlags, parsePacketPayload
 //@   exit require base:    call parseRawOptions(_) as (e) when ret == nil then e == nil
@@ -765,6 +827,7 @@ package command
 //@   exit forbid noipflags: call parseIPFlags(_) when len(pre(o.rawIPFlags)) == 0
 //@   exit forbid nopayload: call parsePacketPayload(_) when len(pre(o.rawICMPPayload)) == 0
 //@ func (*udpCmdOpts).parseRawOptions
+//@   sig o
 //@   props C05 C18 C01 C02 C03 C13 C17 C08
 //@   opaque (*ipPortScanCmdOpts).parseRawOptions, parseIPFlags, parsePacketPayload
 //@   exit require base:    call parseRawOptions(_) as (e) when ret == nil then e == nil
@@ -773,16 +836,19 @@ package command
 //@   exit forbid noipflags: call parseIPFlags(_) when len(pre(o.rawIPFlags)) == 0
 //@   exit forbid nopayload: call parsePacketPayload(_) when len(pre(o.rawUDPPayload)) == 0
 //@ func (*tcpFlagsCmdOpts).parseRawOptions
+//@   sig o
 //@   props C05 C18 C01 C02 C03 C13 C17 C08
 //@   opaque (*ipPortScanCmdOpts).parseRawOptions, parseTCPFlags
 //@   exit require base:  call parseRawOptions(_) as (e) when ret == nil then e == nil
 //@   exit require flags: call parseTCPFlags(bind_s) as (f, e) when ret == nil then s == pre(o.rawTCPFlags) && e == nil && o.tcpFlags == f
 //@ func (*dockerCmdOpts).parseRawOptions
+//@   sig o
 //@   props C10 C18 C01 C02 C03 C13 C17 C08
 //@   opaque (*genericScanCmdOpts).parseRawOptions
 //@   exit require base: call parseRawOptions(_) as (e) when ret == nil then e == nil
 //@   ensures proto: ret == nil ==> (o.proto == "http" || o.proto == "https")
 //@ func (*elasticCmdOpts).parseRawOptions
+//@   sig o
 //@   props C10 C18 C01 C02 C03 C13 C17 C08
 //@   opaque (*genericScanCmdOpts).parseRawOptions
 //@   exit require base: call parseRawOptions(_) as (e) when ret == nil then e == nil
@@ -791,24 +857,29 @@ package command
 // ARP cache source and gateway MAC (C11): an explicit --gwmac wins; otherwise the cache entry of the default
 // gateway of the chosen interface; stdin cannot feed both the cache and the address list
 //@ func (*ipScanCmdOpts).isARPCacheFromStdin
+//@   sig o
 //@   props C11 C01 C05 C07 C13 C12 C02 C17
 //@   ensures ret <==> (len(o.arpCacheFile) == 0 || o.arpCacheFile == "-")
 //@ func (*ipScanCmdOpts).validateARPStdin
+//@   sig o
 //@   props C11 C01 C05 C07 C13 C12 C02 C17
 //@   ensures (ret != nil) <==> ((len(o.arpCacheFile) == 0 || o.arpCacheFile == "-") && o.ipFile == "-")
 //@ func (*ipScanCmdOpts).getGatewayMAC
+//@   sig o, iface, cache
 //@   props C11 C01 C05 C07 C13 C12 C02 C17
 //@   observe ip.GetDefaultGatewayIP, To4, Get
 //@   entry row given:  [] when o.gatewayMAC != nil && ret0 == o.gatewayMAC && ret1 == nil -> exit
 //@   entry row nogw:   [call ip.GetDefaultGatewayIP(iface) as (g, e)] when o.gatewayMAC == nil && e != nil && ret1 == e -> exit
 //@   entry row lookup: [call ip.GetDefaultGatewayIP(iface) as (g, e) ; call To4(g) as (g4) ; call Get(cache, g4) as (m)] when o.gatewayMAC == nil && e == nil && ret0 == m && ret1 == nil -> exit
 //@ func (*ipScanCmdOpts).parseARPCache
+//@   sig o
 //@   props C11 C01 C05 C07 C13 C12 C02 C17
 //@   observe arp.FillCache, Close
 //@   opaque (*ipScanCmdOpts).openARPCache, arp.NewCache
 //@   entry row noopen: [call openARPCache(_) as (r, e)] when e != nil && ret1 == e -> exit
 //@   entry row fill:   [call openARPCache(_) as (r, e) ; call arp.NewCache() as (c) ; call arp.FillCache(c, r) as (fe) ; call Close(r)] when e == nil && ret0 == c && ret1 == fe -> exit
 //@ func (*ipPortScanCmdOpts).parseOptions
+//@   sig o, scanName, args
 //@   props C01 C03 C02 C05 C11 C13 C14 C15 C16 C17 C07 C12
 //@   opaque (*ipScanCmdOpts).parseOptions
 //@   entry row bad: [call parseOptions(_, scanName, args) as (e)] when e != nil && ret == e -> exit
@@ -817,6 +888,7 @@ package command
 // tcp --flags: no flags -> the SYN scan with the same options; otherwise one filler option per named flag, in
 // order, each the table entry of that flag (absent -> nil); scan name "tcpflags"; all-pass reply predicate; all flags printed
 //@ func newTCPFlagsCmd$1
+//@   sig cmd, args
 //@   props C03 C05 C15 C16 C17 C01 C02 C11 C13 C14 C07 C12
 //@   observe newTCPScanMethod, startPortScanEngine, startScan
 //@   opaque (*tcpFlagsCmdOpts).parseRawOptions, (*ipPortScanCmdOpts).parseOptions, newTCPSYNCmdOpts
@@ -872,12 +944,14 @@ package command
 // command-line flags: every flag is bound to its own option field under its documented name (and short name), the
 // embedded option groups register theirs first; defaults that are plain constants are pinned too
 //@ func (*arpCmdOpts).initCliFlags
+//@   sig o, cmd
 //@   props C02 C14 C15 C16 C17 C19
 //@   modifies o.json, o.rawInterface, o.srcIP, o.rawSrcMAC, o.rawExcludeFile, o.rawRateLimit, o.exitDelay, o.liveTimeout
 //@   observe DurationVar
 //@   entry row flags: [call (*packetScanCmdOpts).initCliFlags(_, cmd) ;
 //@                     call DurationVar(_, addr(o.liveTimeout), "live", 0, _)] -> exit
 //@ func (*packetScanCmdOpts).initCliFlags
+//@   sig o, cmd
 //@   props C02 C14 C15 C16 C17
 //@   modifies o.json, o.rawInterface, o.srcIP, o.rawSrcMAC, o.rawExcludeFile, o.rawRateLimit, o.exitDelay
 //@   observe BoolVar, DurationVar, IPVar, StringVar, StringVarP
@@ -889,6 +963,7 @@ package command
 //@                     call StringVarP(_, addr(o.rawRateLimit), "rate", "r", "", _) ;
 //@                     call DurationVar(_, addr(o.exitDelay), "exit-delay", defaultExitDelay, _)] -> exit
 //@ func (*ipScanCmdOpts).initCliFlags
+//@   sig o, cmd
 //@   props C01 C02 C11 C13 C14 C15 C16 C17
 //@   modifies o.json, o.rawInterface, o.srcIP, o.rawSrcMAC, o.rawExcludeFile, o.rawRateLimit, o.exitDelay, o.rawGatewayMAC, o.ipFile, o.arpCacheFile
 //@   observe StringVar, StringVarP
@@ -897,6 +972,7 @@ package command
 //@                     call StringVarP(_, addr(o.ipFile), "file", "f", "", _) ;
 //@                     call StringVarP(_, addr(o.arpCacheFile), "arp-cache", "a", "", _)] -> exit
 //@ func (*ipPortScanCmdOpts).initCliFlags
+//@   sig o, cmd
 //@   props C01 C02 C11 C13 C14 C15 C16 C17 C18
 //@   modifies o.json, o.rawInterface, o.srcIP, o.rawSrcMAC, o.rawExcludeFile, o.rawRateLimit, o.exitDelay, o.rawGatewayMAC, o.ipFile, o.arpCacheFile, o.rawPortRanges, o.portFile
 //@   observe StringVar, StringVarP
@@ -904,6 +980,7 @@ package command
 //@                     call StringVarP(_, addr(o.rawPortRanges), "ports", "p", "", _) ;
 //@                     call StringVar(_, addr(o.portFile), "ports-file", "", _)] -> exit
 //@ func (*genericScanCmdOpts).initCliFlags
+//@   sig o, cmd
 //@   props C01 C02 C08 C13 C14 C15 C16 C18
 //@   modifies o.json, o.rawPortRanges, o.portFile, o.ipFile, o.workers, o.rawExcludeFile, o.rawRateLimit, o.exitDelay
 //@   observe BoolVar, DurationVar, IntVarP, StringVar, StringVarP
@@ -916,6 +993,7 @@ package command
 //@                     call StringVarP(_, addr(o.rawRateLimit), "rate", "r", "", _) ;
 //@                     call DurationVar(_, addr(o.exitDelay), "exit-delay", defaultExitDelay, _)] -> exit
 //@ func (*dockerCmdOpts).initCliFlags
+//@   sig o, cmd
 //@   props C01 C02 C08 C09 C10 C13 C14 C15 C16 C18
 //@   modifies o.json, o.rawPortRanges, o.portFile, o.ipFile, o.workers, o.rawExcludeFile, o.rawRateLimit, o.exitDelay, o.timeout, o.proto
 //@   observe DurationVarP, StringVar
@@ -923,6 +1001,7 @@ package command
 //@                     call DurationVarP(_, addr(o.timeout), "timeout", "t", defaultTimeout, _) ;
 //@                     call StringVar(_, addr(o.proto), "proto", _, _)] -> exit
 //@ func (*elasticCmdOpts).initCliFlags
+//@   sig o, cmd
 //@   props C01 C02 C08 C09 C10 C13 C14 C15 C16 C18
 //@   modifies o.json, o.rawPortRanges, o.portFile, o.ipFile, o.workers, o.rawExcludeFile, o.rawRateLimit, o.exitDelay, o.timeout, o.proto
 //@   observe DurationVarP, StringVar
@@ -930,6 +1009,7 @@ package command
 //@                     call DurationVarP(_, addr(o.timeout), "timeout", "t", defaultTimeout, _) ;
 //@                     call StringVar(_, addr(o.proto), "proto", _, _)] -> exit
 //@ func (*icmpCmdOpts).initCliFlags
+//@   sig o, cmd
 //@   props C01 C02 C05 C11 C13 C14 C15 C16 C17
 //@   modifies o.json, o.rawInterface, o.srcIP, o.rawSrcMAC, o.rawExcludeFile, o.rawRateLimit, o.exitDelay, o.rawGatewayMAC, o.ipFile, o.arpCacheFile, o.ipTTL, o.ipProtocol, o.rawIPFlags, o.ipTotalLen, o.icmpType, o.icmpCode, o.rawICMPPayload
 //@   observe StringVar, StringVarP, Uint16Var, Uint8Var, Uint8VarP
@@ -942,18 +1022,21 @@ package command
 //@                     call Uint8VarP(_, addr(o.icmpCode), "code", "c", 0, _) ;
 //@                     call StringVarP(_, addr(o.rawICMPPayload), "payload", "p", "", _)] -> exit
 //@ func (*socksCmdOpts).initCliFlags
+//@   sig o, cmd
 //@   props C01 C02 C08 C09 C10 C13 C14 C15 C16 C18
 //@   modifies o.json, o.rawPortRanges, o.portFile, o.ipFile, o.workers, o.rawExcludeFile, o.rawRateLimit, o.exitDelay, o.timeout
 //@   observe DurationVarP
 //@   entry row flags: [call (*genericScanCmdOpts).initCliFlags(_, cmd) ;
 //@                     call DurationVarP(_, addr(o.timeout), "timeout", "t", _, _)] -> exit
 //@ func (*tcpFlagsCmdOpts).initCliFlags
+//@   sig o, cmd
 //@   props C01 C02 C03 C05 C11 C13 C14 C15 C16 C17 C18
 //@   modifies o.json, o.rawInterface, o.srcIP, o.rawSrcMAC, o.rawExcludeFile, o.rawRateLimit, o.exitDelay, o.rawGatewayMAC, o.ipFile, o.arpCacheFile, o.rawPortRanges, o.portFile, o.rawTCPFlags
 //@   observe StringVar
 //@   entry row flags: [call (*ipPortScanCmdOpts).initCliFlags(_, cmd) ;
 //@                     call StringVar(_, addr(o.rawTCPFlags), "flags", "", _)] -> exit
 //@ func (*udpCmdOpts).initCliFlags
+//@   sig o, cmd
 //@   props C01 C02 C05 C11 C13 C14 C15 C16 C17 C18
 //@   modifies o.json, o.rawInterface, o.srcIP, o.rawSrcMAC, o.rawExcludeFile, o.rawRateLimit, o.exitDelay, o.rawGatewayMAC, o.ipFile, o.arpCacheFile, o.rawPortRanges, o.portFile, o.ipTTL, o.ipProtocol, o.rawIPFlags, o.ipTotalLen, o.rawUDPPayload
 //@   observe StringVar, Uint16Var, Uint8Var
@@ -1013,6 +1096,7 @@ package command
 
 // the root command offers every scan: tcp (flags) with its four sub-scans, then arp, icmp, udp, tcp, socks, docker, elastic
 //@ func newRootCmd
+//@   sig version
 //@   props C01 C03 C08
 //@   observe AddCommand
 //@   entry row tree: [call newTCPFlagsCmd() as (t) ; call newTCPSYNCmd() as (s1) ; call newTCPFINCmd() as (s2) ; call newTCPNULLCmd() as (s3) ; call newTCPXmasCmd() as (s4) ; call AddCommand(t.cmd, bind_sub) ;
@@ -1022,46 +1106,57 @@ package command
 
 // option constructors: each returns its own option closure over exactly its argument (verified here, inlined at call sites)
 //@ func withExitDelay
+//@   sig exitDelay
 //@   inline
 //@   props C16 C01 C03 C07 C08 C13 C14 C15 C09 C10 C12 C20 C11 C19
 //@   ensures closureof(ret, "withExitDelay$1") && capt(ret, "exitDelay") == exitDelay
 //@ func withLogger
+//@   sig logger
 //@   inline
 //@   props C16 C14 C01 C03 C07 C08 C13 C15 C09 C10 C12 C20 C11 C19
 //@   ensures closureof(ret, "withLogger$1") && capt(ret, "logger") == logger
 //@ func withPacketBPFFilter
+//@   sig bpfFilter
 //@   inline
 //@   props C03
 //@   ensures closureof(ret, "withPacketBPFFilter$1") && capt(ret, "bpfFilter") == bpfFilter
 //@ func withPacketScanMethod
+//@   sig sm
 //@   inline
 //@   props C03
 //@   ensures closureof(ret, "withPacketScanMethod$1") && capt(ret, "sm") == sm
 //@ func withPacketVPNmode
+//@   sig vpnMode
 //@   inline
 //@   props C17 C05
 //@   ensures closureof(ret, "withPacketVPNmode$1") && capt(ret, "vpnMode") == vpnMode
 //@ func withRateCount
+//@   sig rateCount
 //@   inline
 //@   props C15
 //@   ensures closureof(ret, "withRateCount$1") && capt(ret, "rateCount") == rateCount
 //@ func withRateWindow
+//@   sig rateWindow
 //@   inline
 //@   props C15
 //@   ensures closureof(ret, "withRateWindow$1") && capt(ret, "rateWindow") == rateWindow
 //@ func withTCPPacketFillerOptions
+//@   sig opts
 //@   inline
 //@   props C03 C05
 //@   ensures closureof(ret, "withTCPPacketFillerOptions$1") && capt(ret, "opts") == opts
 //@ func withTCPPacketFilterFunc
+//@   sig filter
 //@   inline
 //@   props C03 C05
 //@   ensures closureof(ret, "withTCPPacketFilterFunc$1") && capt(ret, "filter") == filter
 //@ func withTCPPacketFlags
+//@   sig packetFlags
 //@   inline
 //@   props C03 C05
 //@   ensures closureof(ret, "withTCPPacketFlags$1") && capt(ret, "packetFlags") == packetFlags
 //@ func withTCPScanName
+//@   sig scanName
 //@   inline
 //@   props C03 C05
 //@   ensures closureof(ret, "withTCPScanName$1") && capt(ret, "scanName") == scanName
@@ -1069,6 +1164,7 @@ package command
 // ARP cache source (C11): a named file is opened as such; standard input is accepted only when it is not a
 // terminal, and is then read as it is
 //@ func (*ipScanCmdOpts).openARPCache
+//@   sig o
 //@   props C11
 //@   observe os.Open, Stat, Mode, io.NopCloser
 //@   entry row file:   [call os.Open(o.arpCacheFile) as (f, e)] when !(len(o.arpCacheFile) == 0 || o.arpCacheFile == "-") && ret1 == e && isptr(ret0, os.File) && asptr(ret0, os.File) == f -> exit
